@@ -27,26 +27,31 @@ type Doc struct {
 	lines []string
 	// twins are nodes whose children are identical texts: preferred cut candidates
 	twins []*Node
+	// LineBreak: "" (LF), "\r\n" or "\r"
+	LineBreak string
 }
 
 type genCfg struct {
 	Types, Enums, Macros, URLs, Servers, Tags int
 	RPC                                       bool
-	RuleFuzz                                  bool // schema rules with edge values ({type: ""}, {or: []}, ...): mostly invalid documents
-	PathBodyFuzz                              bool // Path bodies that are not objects (type references incl. regex types, arrays, scalars)
-	MacroLadder                               int  // n macros, each pasting the next one twice (acyclic; only the last is pasted for real)
-	MutualTypesMissing                        bool // a long type with an unknown reference and a short type referring back to it, the short one last
-	NoHTTP                                    bool // no URL / method directives outside macros
-	LateFaults                                int  // this many different faults that only the last pipeline stage (validateCatalog) finds
-	PathTypeRefs                              int  // this many URLs whose Path describes its parameter by a reference to an object type
-	EnumMismatch                              int  // 1: a value that is not in its enum (invalid); 2: the same document with the value added to the enum (valid twin)
-	TwinURLs                                  bool // two URLs with identical children (a method with its own Path): one file can be included from both
-	MessyAnn                                  bool // annotations with tabs, runs of spaces and multi-line /* */ form
-	UnusedMacros                              int  // macros that nobody pastes, with bodies of kinds used nowhere else
-	MacroGraph                                int  // n macros with random PASTE edges (cycles possible) and a real PASTE
-	DupPathParams                             int  // a path with this many different parameter names each used twice
-	PathRedescribe                            int  // a Path directive describing again this many parameters of an outer Path
-	EnumsInTypes                              bool // enum rules inside TYPE bodies (the library mishandles some of these documents)
+	RuleFuzz                                  bool   // schema rules with edge values ({type: ""}, {or: []}, ...): mostly invalid documents
+	PathBodyFuzz                              bool   // Path bodies that are not objects (type references incl. regex types, arrays, scalars)
+	AliasTypes                                int    // types whose body is just a reference to another type (chains)
+	LineBreak                                 string // "" = LF; "\r\n" or "\r": the whole document uses this line break
+	Huge                                      bool   // a block comment of more than 1 MiB among the top-level directives
+	MacroLadder                               int    // n macros, each pasting the next one twice (acyclic; only the last is pasted for real)
+	MutualTypesMissing                        bool   // a long type with an unknown reference and a short type referring back to it, the short one last
+	NoHTTP                                    bool   // no URL / method directives outside macros
+	LateFaults                                int    // this many different faults that only the last pipeline stage (validateCatalog) finds
+	PathTypeRefs                              int    // this many URLs whose Path describes its parameter by a reference to an object type
+	EnumMismatch                              int    // 1: a value that is not in its enum (invalid); 2: the same document with the value added to the enum (valid twin)
+	TwinURLs                                  bool   // two URLs with identical children (a method with its own Path): one file can be included from both
+	MessyAnn                                  bool   // annotations with tabs, runs of spaces and multi-line /* */ form
+	UnusedMacros                              int    // macros that nobody pastes, with bodies of kinds used nowhere else
+	MacroGraph                                int    // n macros with random PASTE edges (cycles possible) and a real PASTE
+	DupPathParams                             int    // a path with this many different parameter names each used twice
+	PathRedescribe                            int    // a Path directive describing again this many parameters of an outer Path
+	EnumsInTypes                              bool   // enum rules inside TYPE bodies (the library mishandles some of these documents)
 	// planted authoring faults (documents on which hashed iteration order can show)
 	RecursiveMacros  int
 	UnusedPathParams int
@@ -77,6 +82,15 @@ func randomCfg(r *rng) genCfg {
 		c.UnusedMacros = 1 + r.n(2)
 	}
 	c.TwinURLs = r.chance(200)
+	if r.chance(150) {
+		c.AliasTypes = 1 + r.n(3)
+	}
+	switch r.n(40) {
+	case 0, 1:
+		c.LineBreak = "\r\n"
+	case 2:
+		c.LineBreak = "\r"
+	}
 	c.NoHTTP = r.chance(80)
 	return c
 }
@@ -362,6 +376,16 @@ func generateDoc(r *rng, cfg genCfg) *Doc {
 		}
 	}
 	body = append(body, typeNodes...)
+	for i := 0; i < cfg.AliasTypes && len(g.types) > 0; i++ {
+		target := g.types[r.n(len(g.types))]
+		if i > 0 && r.chance(500) {
+			target = g.ident("alias", i-1)
+		}
+		body = append(body, &Node{KW: "TYPE", Params: "@" + g.ident("alias", i), Body: []string{"@" + target}})
+	}
+	for i := 0; i < cfg.AliasTypes && len(g.types) > 0; i++ {
+		g.types = append(g.types, g.ident("alias", i)) // may be referenced (also from Path bodies)
+	}
 	for i := 0; i < cfg.BadTypes; i++ {
 		body = append(body, &Node{KW: "TYPE", Params: "@" + g.ident("bad", i),
 			Body: []string{"{", fmt.Sprintf(`  "x": @missing%d`, i), "}"}})
@@ -617,7 +641,17 @@ func generateDoc(r *rng, cfg genCfg) *Doc {
 			body[i], body[j] = body[j], body[i]
 		}
 	}
+	if cfg.Huge {
+		// right after JSIGHT: a comment that follows a Description would be part of its text
+		lines := make([]string, 0, 12002)
+		for i := 0; i < 12000; i++ {
+			lines = append(lines, fmt.Sprintf("padding line %05d ........................................................................", i))
+		}
+		lines = append(lines, "###")
+		body = append([]*Node{{KW: "###", Body: lines}}, body...)
+	}
 	d.Top = append(d.Top, body...)
+	d.LineBreak = cfg.LineBreak
 	if cfg.MutualTypesMissing {
 		long := []string{"{"}
 		for k := 0; k < 25+r.n(30); k++ {
@@ -640,7 +674,11 @@ func (d *Doc) Render() string {
 			d.lines = append(d.lines, "")
 		}
 	}
-	return strings.Join(d.lines, "\n") + "\n"
+	nl := "\n"
+	if d.LineBreak != "" {
+		nl = d.LineBreak
+	}
+	return strings.Join(d.lines, nl) + nl
 }
 
 func (d *Doc) renderNode(n *Node, ind int) {
@@ -739,8 +777,14 @@ func cutText(text string, runs [][2]int, r *rng, baseDir string, maxDepth int) (
 // cutTextPref is cutText; with first set, runs[0] is always among the chosen runs and its
 // identical twins elsewhere in the text are cut into the same file.
 func cutTextPref(text string, runs [][2]int, r *rng, baseDir string, maxDepth int, first bool) (single, multi Project, ncuts int) {
-	lines := strings.Split(strings.TrimSuffix(text, "\n"), "\n")
-	endsWithNL := strings.HasSuffix(text, "\n")
+	nl := "\n"
+	if strings.Contains(text, "\r\n") {
+		nl = "\r\n"
+	} else if strings.Contains(text, "\r") && !strings.Contains(text, "\n") {
+		nl = "\r"
+	}
+	lines := strings.Split(strings.TrimSuffix(text, nl), nl)
+	endsWithNL := strings.HasSuffix(text, nl)
 	root := filepath.Join(baseDir, "main.jst")
 	single = Project{Root: root, Cwd: "/sim/cwd"}
 	single.set(root, []byte(text))
@@ -862,7 +906,7 @@ func cutTextPref(text string, runs [][2]int, r *rng, baseDir string, maxDepth in
 		at := from
 		for _, c := range inner {
 			for ; at < c.from; at++ {
-				sb.WriteString(lines[at] + "\n")
+				sb.WriteString(lines[at] + nl)
 			}
 			// place the file: same directory or a sub-directory
 			// the sub-directory is a function of the moved text, so that identical runs land in one file
@@ -879,7 +923,17 @@ func cutTextPref(text string, runs [][2]int, r *rng, baseDir string, maxDepth in
 			name, ok := byContent[key]
 			if !ok {
 				perDir[cdir]++
-				name = fmt.Sprintf("part%d.jst", perDir[cdir])
+				// names that only look suspicious (leading dots, letter case) are as good as any
+				prefix := []string{"part", "part", "part", "Part", "PART", "..part", "p.art", "...", "part"}[hash64(content)%9]
+				if sub != "" && strings.HasPrefix(prefix, "..") {
+					// after a directory the library's validator refuses "/.." even inside a longer name;
+					// that conservatism is not what this check is about
+					prefix = "part"
+				}
+				name = fmt.Sprintf("%s%d.jst", prefix, perDir[cdir])
+				if prefix == "..." {
+					name = fmt.Sprintf("...%d", perDir[cdir])
+				}
 				byContent[key] = name
 				multi.set(filepath.Join(cdir, name), []byte(content))
 			}
@@ -888,18 +942,18 @@ func cutTextPref(text string, runs [][2]int, r *rng, baseDir string, maxDepth in
 				rel = sub + "/" + name
 			}
 			indent := lines[c.from][:len(lines[c.from])-len(strings.TrimLeft(lines[c.from], " "))]
-			sb.WriteString(indent + "INCLUDE " + rel + "\n")
+			sb.WriteString(indent + "INCLUDE " + rel + nl)
 			ncuts++
 			at = c.to
 		}
 		for ; at < to; at++ {
-			sb.WriteString(lines[at] + "\n")
+			sb.WriteString(lines[at] + nl)
 		}
 		return sb.String()
 	}
 	rootText := emit(0, len(lines), tops, baseDir)
 	if !endsWithNL {
-		rootText = strings.TrimSuffix(rootText, "\n")
+		rootText = strings.TrimSuffix(rootText, nl)
 	}
 	multi.set(root, []byte(rootText))
 	return single, multi, ncuts
